@@ -124,16 +124,21 @@ func writer(conn net.Conn, seed int64, sess, dir int, sizes []int, tag []byte, r
 
 func writerPaced(conn net.Conn, seed int64, sess, dir int, sizes []int, tag []byte, res *DirResult, gapUs int) {
 	off := 0
-	// one buffer re-used for every Write and overwritten as soon as Write returns: io.Writer
-	// implementations must not retain the caller's slice
-	var buf []byte
+	// One buffer is re-used for every Write (io.Writer implementations must not retain the
+	// caller's slice). Even-numbered sessions overwrite it as soon as Write returns; odd-numbered
+	// sessions leave it alone until the next Write refills it (the content then changes between a
+	// first transmission and a later retransmission if the implementation aliased it).
+	maxNeed := len(tag)
+	for _, sz := range sizes {
+		if sz+len(tag) > maxNeed {
+			maxNeed = sz + len(tag)
+		}
+	}
+	buf := make([]byte, maxNeed)
 	for i, sz := range sizes {
 		need := sz
 		if i == 0 {
 			need += len(tag)
-		}
-		if cap(buf) < need {
-			buf = make([]byte, need)
 		}
 		b := buf[:need]
 		pre := 0
@@ -142,8 +147,10 @@ func writerPaced(conn net.Conn, seed int64, sess, dir int, sizes []int, tag []by
 		}
 		FillStream(b[pre:], seed, sess, dir, off)
 		n, err := conn.Write(b)
-		for j := range b {
-			b[j] = 0xA5 // scribble
+		if sess%2 == 0 {
+			for j := range b {
+				b[j] = 0xA5 // scribble
+			}
 		}
 		n -= pre
 		if n < 0 {
